@@ -1,6 +1,8 @@
 # ruff: noqa: E721
 import builtins
+import keyword
 import math
+import unicodedata
 from enum import Enum
 from typing import Any, Optional
 
@@ -115,3 +117,20 @@ _SINGLETONS = {None, Ellipsis, NotImplemented}
 
 def is_singleton(obj: object) -> bool:
     return any(obj is singleton for singleton in _SINGLETONS) or isinstance(obj, (bool, Enum))
+
+
+def is_plain_identifier(name: str) -> bool:
+    """Checks that name can be written in source code as an attribute or a keyword argument and is read back unchanged.
+    The compiler rejects keywords and reads identifiers in NFKC form
+    """
+    return name.isidentifier() and not keyword.iskeyword(name) and unicodedata.normalize("NFKC", name) == name
+
+
+def get_var_suffix(name: str) -> str:
+    """Returns text that can be appended to a variable prefix, different names produce different variables.
+    The compiler reads identifiers in NFKC form, so names that are not in this form are encoded.
+    Result for such names starts with a digit, so it can not coincide with any identifier
+    """
+    if unicodedata.normalize("NFKC", name) == name:
+        return name
+    return "0" + name.encode("utf-8", "surrogatepass").hex()
